@@ -297,6 +297,13 @@ def typed_eval_scenario(cfg) -> List[str]:
               ('~B', lambda: ~c['B'])]
     if cfg['span'] == 'model':
         checks += [('iterations + 1', lambda: c['iterations'] + 1), ("status == '-'", lambda: c['status'] == '-')]
+    # undefined names are reported as AttributeError naming them -- also when several variables are equally close
+    c.add_variable('c', 1.0, dtype=float)
+    c.add_variable('C', 2.0, dtype=float)
+    for undefined in ('cc', 'c_', 'Cc', 'zzz'):
+        r = _run(lambda: c.eval(f'X + {undefined}'))
+        if r[0] != 'exc' or r[1] != 'AttributeError' or undefined not in r[2]:
+            bad.append(f'undefined name {undefined!r}: expected AttributeError naming it, got {r}')
     for text, want in checks:
         r = _run(lambda: c.eval(text))
         w = want()
